@@ -17,7 +17,7 @@ from vf.checks.c12_admission import RejectOnHeader
 ACTIONS = ['open', 'open_rej', 'ws_open', 'poll', 'post_msg', 'post_two', 'post_close', 'post_bad7', 'post_bad0',
            'post_garbage', 'post_17', 'ws_connect', 'ws_probe', 'ws_upgrade', 'ws_badframe', 'ws_msg',
            'ws_closeframe', 'ws_peer_close', 'send', 'send_bin', 'disconnect_sid', 'tick',
-           'get_unknown', 'get_wrong_transport', 'put', 'ws_drop', 'ws_fault']
+           'get_unknown', 'get_wrong_transport', 'put', 'ws_drop', 'ws_fault', 'disconnect_all']
 # the silence pass: histories over a smaller alphabet, each followed by every client falling silent for the heartbeat bound
 SILENT_ACTIONS = ['open', 'ws_open', 'post_close', 'poll', 'tick', 'wait41', 'disconnect_sid', 'ws_peer_close']     # wait41: 2 x ping_timeout + 1 s pass
 SILENT_ACTIONS_THOROUGH = SILENT_ACTIONS + ['wait20', 'open_rej', 'ws_connect', 'ws_probe', 'ws_upgrade', 'send', 'post_msg']
@@ -94,8 +94,19 @@ class Side:
             w.run()
             self.admission.append(r.status)
             return True
+        if a == 'disconnect_all':
+            # the application disconnects everybody; only while at most one session has not been ended by its client (with two
+            # the threaded disconnect() stops at the first whose queue nobody drains - known finding KF-C15 - and the servers differ)
+            if getattr(self, 'disc_all', False) or len([x for x in self.sids if x not in getattr(self, 'ended', set())]) > 1:
+                return False
+            self.disc_all = True
+            w.call('disconnect')
+            w.run()
+            return True
         if sid is None:
             return False
+        if a in ('post_close', 'ws_closeframe', 'ws_peer_close', 'disconnect_sid'):
+            self.ended = getattr(self, 'ended', set()) | {sid}
         if a == 'poll':
             if len(self.polls[sid]) >= 3:
                 return False      # enabledness must not depend on what the server did
